@@ -111,6 +111,9 @@ def run_one(job, out, chooser, cap):
     import threading as _th
     old_glob = (_th.Thread, _q.Queue)
     _th.Thread, _q.Queue = IT, IQ
+    import time as _t
+    old_sleep = _t.sleep
+    _t.sleep = S.vsleep              # polling loops: sleeping is a scheduling point in virtual time
     C.open = rec
     err = None
     try:
@@ -127,6 +130,7 @@ def run_one(job, out, chooser, cap):
     finally:
         CU.Queue, CU.Thread, CU.zfpy = oldq, oldt, oldz
         _th.Thread, _q.Queue = old_glob
+        _t.sleep = old_sleep
         del C.open
     # let unwound daemon threads exit
     t0 = time.time()
@@ -182,7 +186,7 @@ def run_case(case, ctx):
     transitions = set()
     schedules = set()
     n_exec = 0
-    virt = [0, 0]
+    virt = [0, 0, 0]
     maxlen = 0
     complete = False
     prefix = []
@@ -205,7 +209,9 @@ def run_case(case, ctx):
                     c = prefix[i]
                 else:
                     un = [n for n in names if n not in visited.get(st, ())]
-                    c = un[0] if un else names[0]
+                    # nothing new to try here: let a thread run that does something (a polling thread can go on looking for ever)
+                    act = [t.name for t in en if not t.label.startswith(('sleep', 'peek'))]
+                    c = un[0] if un else (act or names)[0]
             elif case['mode'] == 'random':
                 c = rng.choice(names)
             else:
@@ -215,6 +221,8 @@ def run_case(case, ctx):
                     top = max(names, key=lambda n: prio[n])
                     prio[top] = -rng.random()
                 c = max(names, key=lambda n: prio[n])
+                if en[names.index(c)].label.startswith('sleep'):
+                    prio[c] = -rng.random()          # a thread that goes to sleep yields: lowest priority from here (or it would poll for ever)
             visited.setdefault(st, set()).add(c)
             transitions.add((st, c))
             path.append((st, c))
@@ -229,6 +237,7 @@ def run_case(case, ctx):
         n_exec += 1
         virt[0] += S.timeouts_fired
         virt[1] += S.timed_waits
+        virt[2] += S.peeks + S.sleeps
         maxlen = max(maxlen, len(S.trace))
         schedules.add(hash(tuple(S.trace)))
         sched_txt = ' '.join('%s.%s' % (a[:4], b2) for a, b2 in S.trace[-40:])
@@ -267,7 +276,7 @@ def run_case(case, ctx):
     if complete:
         strata.append('dfs-complete')
     counters = {'executions': n_exec, 'abstract_states': len(visited), 'transitions': len(transitions), 'distinct_schedules': len(schedules),
-                'schedule_len_max': maxlen, 'virtual_timeouts_fired': virt[0], 'timed_condition_waits': virt[1], 'dfs_complete': 1 if complete else 0, 'dfs_incomplete': 1 if case['mode'] == 'dfs' and not complete else 0}
+                'schedule_len_max': maxlen, 'virtual_timeouts_fired': virt[0], 'timed_condition_waits': virt[1], 'polling_observations': virt[2], 'dfs_complete': 1 if complete else 0, 'dfs_incomplete': 1 if case['mode'] == 'dfs' and not complete else 0}
     return {'violations': bad, 'counters': counters, 'strata': strata, 'key': case['id'], 'nontrivial': n_exec > 0,
             'summary': {'id': case['id'], 'executions': n_exec, 'states': len(visited), 'transitions': len(transitions), 'schedules': len(schedules),
                         'complete': complete, 'wall': round(time.time() - t_start, 1)}}
